@@ -639,7 +639,9 @@ class RamStorage(Storage):
 
     def open_file(self, name, **kwargs):
         if name not in self.files:
-            raise NameError(name)
+            # Same error type as FileStorage, so callers that handle a file
+            # that vanished under them (FileIndex.reader) also work here
+            raise IOError(errno.ENOENT, "No such file in RamStorage", name)
         buf = memoryview_(self.files[name])
         return BufferFile(buf, name=name, **kwargs)
 
